@@ -9,7 +9,10 @@ OUT=/verif/seeded/$ID
 rm -rf $WT; git -C /repo worktree add -q --detach $WT HEAD || exit 2
 mkdir -p $OUT; cp $SRC/patch.diff $OUT/; cp -r $SRC/demo $OUT/ 2>/dev/null; cp $SRC/HOWTO.txt $OUT/ 2>/dev/null; cp $SRC/meta.json $OUT/agent_meta.json
 log=$OUT/confirm.log; : > $log
-run_demo() { ( cd $OUT/demo && sed -i "s#=> /tmp/mut_[A-Z]#=> $WT#; s#=> /tmp/cs_[A-Za-z0-9_-]*#=> $WT#" go.mod && cp $WT/go.sum . 2>/dev/null; timeout 600 go test -count=1 ./... 2>&1 | tail -15 ); }
+if [ ! -d $SRC/demo ] && [ -f $SRC/demo_test.go ]; then mkdir -p $OUT/demo_in_tree; cp $SRC/demo_test.go $OUT/demo_in_tree/; fi
+DEST=${4:-zz_demo/demo_test.go}; case $DEST in zz_demo/*) RUNPAT=. ;; *) RUNPAT=Demo ;; esac
+run_demo() { if [ -d $OUT/demo_in_tree ]; then ( mkdir -p $WT/$(dirname $DEST) && cp $OUT/demo_in_tree/demo_test.go $WT/$DEST && cd $WT && timeout 900 go test -count=1 -run "$RUNPAT" ./$(dirname $DEST)/ 2>&1 | tail -15; rm -f $WT/$DEST ); return; fi
+  ( cd $OUT/demo && sed -i "s#=> /tmp/mut_[A-Z]#=> $WT#; s#=> /tmp/cs_[A-Za-z0-9_-]*#=> $WT#" go.mod && cp $WT/go.sum . 2>/dev/null; timeout 600 go test -count=1 ./... 2>&1 | tail -15 ); }
 echo "== demo WITHOUT the change" >> $log; run_demo >> $log 2>&1; grep -q "^ok" <(run_demo | tail -3) && W0=pass || W0=fail
 git -C $WT apply $OUT/patch.diff || { echo "patch does not apply" >> $log; exit 2; }
 ( cd $WT && go build ./... ) >> $log 2>&1 && B=ok || B=fail
@@ -17,7 +20,7 @@ echo "== demo WITH the change" >> $log; run_demo >> $log 2>&1; grep -q "^ok" <(r
 S=skipped
 if [ "$3" != nosuite ]; then
   echo "== pinned suite WITH the change" >> $log
-  /verif/bin/baseline_off.sh $WT >> $log 2>&1 && S=pass || S=fail
+  SUITE_TIMEOUT=90m /verif/bin/baseline_off.sh $WT >> $log 2>&1 && S=pass || S=fail
 fi
 echo "build=$B demo_without=$W0 demo_with=$W1 suite=$S" | tee -a $log
 git -C /repo worktree remove --force $WT
